@@ -254,12 +254,16 @@ func C14(c *fw.Ctx) {
 	}{
 		{"var", func() *model.N { return model.Id("w") }},
 		{"lit", func() *model.N { return model.Num(7) }},
-		{"asg", func() *model.N { return model.Grp(model.Asg("w", model.Bin("+", model.Bin("*", model.Id("w"), model.Num(2)), model.Num(1)))) }},
+		{"asg", func() *model.N {
+			return model.Grp(model.Asg("w", model.Bin("+", model.Bin("*", model.Id("w"), model.Num(2)), model.Num(1))))
+		}},
 		{"call", func() *model.N { return model.CallN("bump") }},
 		{"elem", func() *model.N { return model.Idx(model.Id("wa"), model.Num(0)) }},
 		{"fault-div", func() *model.N { return model.Grp(model.Bin("/", model.Num(1), model.Num(0))) }},
 		{"fault-neg", func() *model.N { return model.Un("-", model.Str("s")) }},
-		{"elem-store", func() *model.N { return model.Grp(model.IAsg(model.Id("wa"), model.Num(0), model.Bin("+", model.Idx(model.Id("wa"), model.Num(0)), model.Num(10)))) }},
+		{"elem-store", func() *model.N {
+			return model.Grp(model.IAsg(model.Id("wa"), model.Num(0), model.Bin("+", model.Idx(model.Id("wa"), model.Num(0)), model.Num(10))))
+		}},
 	}
 	bumpPre := func() []*model.N {
 		return append(c14Prelude(), model.Var("wa", model.Arr(model.Num(1))),
@@ -267,12 +271,16 @@ func C14(c *fw.Ctx) {
 			model.ExprS(model.Asg("w", model.Num(1))))
 	}
 	twoHole := map[string]func(a, b *model.N) *model.N{
-		"call-user":    func(a, b *model.N) *model.N { return model.CallN("g2", a, b) },
-		"array":        func(a, b *model.N) *model.N { return model.Arr(a, b) },
-		"object":       func(a, b *model.N) *model.N { return model.Obj([]string{"z", "y"}, []*model.N{a, b}) },
-		"index":        func(a, b *model.N) *model.N { return model.Idx(model.Arr(model.Num(5), model.Num(6), a), model.Bin("%", b, model.Num(3))) },
-		"index-store":  func(a, b *model.N) *model.N { return model.IAsg(model.Id("arr"), model.Bin("%", a, model.Num(3)), b) },
-		"prop-store":   func(a, b *model.N) *model.N { return model.PAsg(model.Idx(model.Arr(model.Id("ob"), a), model.Num(0)), "k", b) },
+		"call-user": func(a, b *model.N) *model.N { return model.CallN("g2", a, b) },
+		"array":     func(a, b *model.N) *model.N { return model.Arr(a, b) },
+		"object":    func(a, b *model.N) *model.N { return model.Obj([]string{"z", "y"}, []*model.N{a, b}) },
+		"index": func(a, b *model.N) *model.N {
+			return model.Idx(model.Arr(model.Num(5), model.Num(6), a), model.Bin("%", b, model.Num(3)))
+		},
+		"index-store": func(a, b *model.N) *model.N { return model.IAsg(model.Id("arr"), model.Bin("%", a, model.Num(3)), b) },
+		"prop-store": func(a, b *model.N) *model.N {
+			return model.PAsg(model.Idx(model.Arr(model.Id("ob"), a), model.Num(0)), "k", b)
+		},
 		"builtin-call": func(a, b *model.N) *model.N { return model.CallN(model.BiMax, a, b) },
 		"append":       func(a, b *model.N) *model.N { return model.CallN(model.BiAppend, model.Arr(a), b) },
 	}
